@@ -222,7 +222,7 @@ impl<'a> Hist<'a> {
 
     // ------------------------------------------------------------------ operations
 
-    pub fn op_send(&mut self, pair: Pair) {
+    pub fn op_send(&mut self, pair: Pair) -> ActorId {
         let (mgr, out, sim) = (self.mgr(), self.handouts.clone(), self.sim.clone());
         let caller = self.callers;
         self.callers += 1;
@@ -238,10 +238,10 @@ impl<'a> Hist<'a> {
             };
             out.lock().unwrap().push(Handout { caller, kind: "send", pair, t_ns: sim.now_ns(), t_call_ns, step: sim.with(|s| s.steps), res });
             drop(mgr);
-        });
+        })
     }
 
-    pub fn op_try_send(&mut self, pair: Pair) {
+    pub fn op_try_send(&mut self, pair: Pair) -> ActorId {
         let (mgr, out, sim) = (self.mgr(), self.handouts.clone(), self.sim.clone());
         let caller = self.callers;
         self.callers += 1;
@@ -256,7 +256,7 @@ impl<'a> Hist<'a> {
             };
             out.lock().unwrap().push(Handout { caller, kind: "try", pair, t_ns: sim.now_ns(), t_call_ns, step: sim.with(|s| s.steps), res });
             drop(mgr);
-        });
+        })
     }
 
     pub fn op_prefetch(&mut self, pair: Pair) {
